@@ -161,3 +161,24 @@ package lua
 //@ loop 1 invariant forall q int :: 0 <= q && q < rangei ==> fc.Proto.DbgLocals[fc.Block.dbgLocals[q]].EndPc == fc.Code.pc - 1
 //@ loop 1 invariant forall k int :: 0 <= k && k < len(fc.Proto.DbgLocals) && !old(inBlock(fc, k)) ==> fc.Proto.DbgLocals[k].EndPc == old(fc.Proto.DbgLocals[k].EndPc)
 //@ loop 1 invariant forall k int :: 0 <= k && k < len(fc.Proto.DbgLocals) ==> fc.Proto.DbgLocals[k].StartPc == old(fc.Proto.DbgLocals[k].StartPc) && fc.Proto.DbgLocals[k].Name == old(fc.Proto.DbgLocals[k].Name)
+
+// ---------------------------------------------------------------------------
+// Table constructors (manual §2.5.7): positional fields are stored at 1, 2, 3, ... in order, flushed in blocks of
+// FieldsPerFlush by SETLIST A B C (B values into block C; B == 0: "up to the top", used ONLY when the LAST field is a
+// positional multi-value expression). compileTableExpr is part of the recursive compiler and is not verified as a whole;
+// what IS checked, at every SETLIST it emits, is the block arithmetic:
+//   - the open form (B == 0) is chosen exactly when the last field is a POSITIONAL call/vararg (never for `k = f()`),
+//   - `pending` counts the single values compiled since the last SETLIST (0 <= pending <= FPF, at least one unless the
+//     tail is open) and the block number is the block of the first pending element, (arraycount-pending)/FPF + 1,
+//   - a block number that does not fit operand C is emitted as the extra code word, unchanged.
+// ---------------------------------------------------------------------------
+// FieldsPerFlush is assigned only by the package initialiser (scan), so it is the constant 50 it is initialised with
+//@ constglobal[C01] FieldsPerFlush
+//@ func compileTableExpr [C01]
+//@ only-asserts the block arithmetic of the emitted SETLIST instructions
+//@ let@"blockno := (arraycount-pending)/FieldsPerFlush + 1" pend0 = pending
+//@ assert@"code.AddABC(OP_SETLIST, tablereg, b, c, sline(line))" blockno == (arraycount - pend0) / 50 + 1 && (lastvararg || b == pend0) && (b == 0 <==> lastvararg) && (b != 0 ==> 1 <= b && b <= FieldsPerFlush) && blockno >= 1 && c == ite(blockno > 511, 0, blockno)
+//@ assert@"blockno := (arraycount-pending)/FieldsPerFlush + 1" 0 <= pending && pending <= FieldsPerFlush && pending <= arraycount && (lastvararg || pending >= 1)
+//@ assert@"code.Add(uint32(blockno), sline(line))" c == 0 && blockno > 511
+//@ modifies everything
+//@ loop 1 invariant arraycount >= 0 && 0 <= pending && pending < FieldsPerFlush && pending <= arraycount
